@@ -54,6 +54,35 @@ pub fn binrw_write_codepage_string<const SIZE: usize>(
     Ok(())
 }
 
+/// Like [binrw_write_codepage_string], but the last byte written is always \0: LFS requires the
+/// free text instruction packets (IS_MST, IS_MSX, IS_MSL, IS_MTC) to be NUL terminated.
+#[binrw::writer(writer, endian)]
+pub fn binrw_write_codepage_string_terminated<const SIZE: usize>(
+    input: &String,
+    align_to: u8,
+) -> binrw::BinResult<()> {
+    let mut res: Vec<u8> = codepages::to_lossy_bytes(input).to_vec();
+
+    // always leave room for, and write, the terminator
+    res.truncate(SIZE - 1);
+    res.push(0);
+
+    let padded = if align_to > 1 {
+        let align_to = (align_to as usize) - 1;
+        ((res.len() + align_to) & !align_to).min(SIZE)
+    } else {
+        SIZE
+    };
+
+    if padded > res.len() {
+        res.put_bytes(0, padded - res.len());
+    }
+
+    res.write_options(writer, endian, ())?;
+
+    Ok(())
+}
+
 #[allow(missing_docs)]
 #[binrw::parser(reader, endian)]
 pub fn binrw_parse_codepage_string<const SIZE: usize>(raw: bool) -> binrw::BinResult<String> {
